@@ -89,7 +89,7 @@ def compare(op, impl, model):
                 elif int(x) != int(y):
                     return False
             return True
-        if kind == "exam":
+        if kind in ("exam", "exams", "examf", "examm"):
             if len(a) != len(b):
                 return False
             for i, (x, y) in enumerate(zip(a, b)):
